@@ -71,6 +71,7 @@ def configs(tier):
     add("b-B2", B=2, growers=[1, 2])
     add("b-B2-rev", B=2, growers=[2, 1], chunks=1)
     add("b-B2-shared", B=2, growers=[1, 2], chunks=1, entry="shared")
+    add("b-B2-odd", B=2, growers=[1, 2], chunks=1, odd=True)
     add("c-B1-twice", B=1, growers=[1, 1])
     add("c-B2-twice", B=2, growers=[1, 1, 2], chunks=1)
     add("d-B2-poll1-nr", B=2, growers=[1, 2], poll=1, chunks=1,
@@ -109,7 +110,8 @@ class Setup:
         self.cfg = cfg
         self.d = d
         B = cfg["B"]
-        self.combos = {"a": list(range(1, 2 * B + 1))}  # 2 settings / batch
+        # 2 settings / batch ("odd": one more, so the batches differ in size)
+        self.combos = {"a": list(range(1, 2 * B + 1 + bool(cfg.get("odd"))))}
         self.f = xfn.make_fn(["a"], kind="num", name="f11")
         core.fresh_dir(os.path.basename(d))
         if cfg["kind"] == "runner":
